@@ -56,6 +56,27 @@ def _wmax_ok(e: ast.AST) -> (bool, str):
     return True, f"{c}*{'*'.join(others + ['weight_type(max non-ignored flow)'])} >= max flow"
 
 
+def original_k_provider(prog: Program, rep, RID: str, classes: List[str]):
+    """`self.original_k` (the cap on the number of non-empty paths under given weights) is the caller's k: it is taken from k /
+    self.k *before* self.k is overwritten with the number of candidate weights."""
+    for cname in classes:
+        f = prog.own_method(cname, "__init__")
+        stores = [s for s in stores_to_self_attr(f.node, "original_k") if isinstance(s, ast.Assign)]
+        over = [s for s in stores_to_self_attr(f.node, "k") if isinstance(s, ast.Assign) and "solution_weights_superset" in norm(s.value)]
+        key = f"{cname}.__init__:original_k"
+        if not stores or not over:
+            raise AnalysisError(f"{cname}.__init__: original_k / superset overwrite of k not found")
+        st = stores[0]
+        ok_val = norm(st.value) in ("k", "self.k")
+        ok_order = all(st.lineno < o.lineno for o in over)
+        if ok_val and ok_order and len(stores) == 1:
+            rep.ok(RID, key, f"`{norm(st)}` precedes `{norm(over[0])}`: the path cap under given weights is the caller's k", f.loc(st))
+        else:
+            rep.violation(RID, key, f"`{norm(st)}` (line {st.lineno}) vs `{norm(over[0])[:60]}` (line {over[0].lineno}): original_k no longer holds the caller's k, so the row "
+                          "`#non-empty paths <= original_k` allows as many paths as there are candidate weights - more than k paths are returned", f.loc(st))
+    # the cap row itself is in the formulation table (max_paths_original_k_paths)
+
+
 def numeric_type(prog: Program, rep, RID: str, classes: List[str]):
     """weights are round()-ed iff weight_type == int, float() otherwise (getter); the weight family is integer iff int."""
     for cname in classes:
